@@ -15,7 +15,7 @@ func init() {
 	register(&Property{
 		ID:          "C01",
 		Engines:     []string{"cfg", "lockset"},
-		Explanation: "Outbound stream integrity, structural part: every kernel write and enqueue on a connection runs under the connection mutex with no release between the closed test and the write (O1); in write() every success path after a direct kernel write queues b[n:] unless nothing is left, and the queued path never overtakes the queue (O2); predicates over the connection type treat Unix like TCP (O3); the vectored remainder loop is total and its enqueue sites feasible (O4); success returns carry the input length (O5); the queue copies the caller's slice (O6); flush consumes head-first by the syscall count and pops only on completion after release (O7); EINTR/EAGAIN are never handed to teardown (O8); a failed Dup never reaches a success return (O9). Re-allocating the queue tail's buffer copies the whole old buffer to the front of the new one (O10). A kernel write in a loop is repeated only behind a test of its count or on data advanced by it (O11); no measurement of the tail buffer is used after the buffer was changed (O10).",
+		Explanation: "Outbound stream integrity, structural part: every kernel write and enqueue on a connection runs under the connection mutex with no release between the closed test and the write (O1); in write() every success path after a direct kernel write queues b[n:] unless nothing is left, and the queued path never overtakes the queue (O2); predicates over the connection type treat Unix like TCP (O3); the vectored remainder loop is total and its enqueue sites feasible (O4); success returns carry the input length (O5); the queue copies the caller's slice (O6); flush consumes head-first by the syscall count and pops only on completion after release (O7); EINTR/EAGAIN are never handed to teardown (O8); a failed Dup never reaches a success return (O9). Re-allocating the queue tail's buffer copies the whole old buffer to the front of the new one (O10). A kernel write in a loop is repeated only behind a test of its count or on data advanced by it (O11); no measurement of the tail buffer is used after the buffer was changed (O10). The write path stores nothing on the poller (O12).",
 		NotCovered:  "what the kernel does with the bytes; byte-for-byte equality at the peer; sendfile offset arithmetic beyond the pattern of O7; peer pacing; UDP",
 		Run:         runC01,
 	})
